@@ -12,7 +12,8 @@ import lib_arbiter as L
 import vlib
 
 SIG = {n: int(getattr(signal, "SIG" + n)) for n in "HUP QUIT INT TERM TTIN TTOU USR1 USR2 WINCH ABRT KILL".split()}
-STATUSES = [0, 256, 768, 1024, 9, 15, 6, 11, 0xFF00, 134, 512]
+# wait statuses: exit codes (<<8), fatal signals, core-dump flag (0x80|sig), real-time signals that signal.Signals cannot name
+STATUSES = [0, 256, 768, 1024, 9, 15, 6, 11, 0xFF00, 134, 512, 40, 35, 63, 139, 64, 127, 2]
 C03_SIGNALS = [SIG["TTIN"], SIG["TTOU"], SIG["HUP"]]
 
 KEY_D17 = "fork-reap-race-timeout0"
